@@ -47,7 +47,7 @@ pub mod verif {
     pub const MMAP_ARENA: u8 = 1; // return &MEM[MMAP_OFF[k]]
     pub const MMAP_FAR: u8 = 2; // return &FAR[16 * k]
     pub const MMAP_INT: u8 = 3; // return the integer MMAP_ADDR[k] (never dereferenced)
-    pub const MAXMAP: usize = 6;
+    pub const MAXMAP: usize = 8;
     pub static mut MMAP_MODE: [u8; MAXMAP] = [MMAP_FAIL; MAXMAP];
     pub static mut MMAP_OFF: [usize; MAXMAP] = [0; MAXMAP];
     pub static mut MMAP_ADDR: [usize; MAXMAP] = [0; MAXMAP];
@@ -71,6 +71,8 @@ pub mod verif {
     pub static mut LAST_MMAP_PROT: c_int = 0;
     /// set when munmap is called with something that is not exactly a live mapping
     pub static mut BAD_MUNMAP: bool = false;
+    /// addresses handed to munmap, in call order
+    pub static mut UNMAP_ORDER: [usize; MAXMAP] = [0; MAXMAP];
 
     pub const MAXPROT: usize = 8;
     pub static mut PROT_START: [usize; MAXPROT] = [0; MAXPROT];
@@ -230,6 +232,9 @@ pub unsafe fn munmap(addr: *mut c_void, len: size_t) -> c_int {
 }
 
 pub unsafe fn munmap_impl(addr: *mut c_void, len: size_t) -> c_int {
+    if N_MUNMAP < MAXMAP {
+        UNMAP_ORDER[N_MUNMAP] = addr as usize;
+    }
     N_MUNMAP += 1;
     log_event(2, addr as usize);
     let a = addr as usize;
